@@ -3,7 +3,7 @@
 //! World: a serial line delivers a byte stream in pieces chosen by the simulator; the receiver is
 //! the real `CobsAccumulator<N>` driven by the documented re-feed loop.
 
-use crate::refenc::cobs_frame;
+use crate::refenc::{cobs_frame, cobs_frame_canonical};
 use crate::rng::{Fnv, Rng};
 use crate::runner::{Outcome, Scenario, Tier};
 use crate::shape::{self, DynOwned, DynRef, GenCfg, Msg, Shape, Val};
@@ -368,7 +368,8 @@ mod p8 {
     pub const TRUNCATED_REJECTED: usize = 15;
     pub const HUGE_CAPACITY: usize = 16;
     pub const MORE_THAN_65535_RESULTS: usize = 17;
-    pub const NAMES: [&str; 18] = [
+    pub const CANONICAL_FULL_BLOCK: usize = 18;
+    pub const NAMES: [&str; 19] = [
         "segment_of_exactly_N_bytes",
         "unterminated_tail_of_exactly_N_bytes",
         "chunk_with_3_or_more_sentinels",
@@ -387,6 +388,7 @@ mod p8 {
         "truncated_but_correctly_framed_encoding_rejected",
         "capacity_65535_or_more",
         "more_than_65535_results_from_one_accumulator",
+        "frame_in_the_cobs_paper_convention_ending_with_a_full_block_delivered",
     ];
 }
 
@@ -609,6 +611,10 @@ fn c08_history<const N: usize>(
                 // ground truth known by construction of the workload, independent of any decoder
                 match t.segments.get(results).and_then(|g| g.expect.as_ref()) {
                     Some(Expect::Value(v)) => {
+                        let gb = &t.segments[results].bytes;
+                        if gb.len() >= 256 && crate::refenc::ends_on_block_boundary(&gb[..gb.len() - 1]) {
+                            out.probe(p8::CANONICAL_FULL_BLOCK);
+                        }
                         if call.kind != Kind::Success || call.data.as_ref() != Some(v) {
                             fail!(
                                 "well-formed-frame-delivered",
@@ -867,6 +873,37 @@ fn exact_frame(rng: &mut Rng, shape: &Shape, len: usize) -> Option<(Vec<u8>, Val
     None
 }
 
+/// A frame as an encoder following the COBS paper produces it whose data ends with a full block
+/// of 254 non-zero bytes (no code byte after that block): 255k + 1 bytes for k blocks.
+fn canonical_full_block_frame(rng: &mut Rng, shape: &Shape, max_frame: usize) -> Option<(Vec<u8>, Val)> {
+    if max_frame < 256 {
+        return None;
+    }
+    let kmax = (max_frame - 1) / 255;
+    let k = rng.range(1, kmax.min(4));
+    let plain_len = 254 * k;
+    for vl in 1..=3usize {
+        let payload = plain_len.checked_sub(vl)?;
+        let m = match shape {
+            Shape::Bytes => Msg { shape: shape.clone(), val: Val::Bytes(nonzero_bytes(rng, payload)) },
+            Shape::Str => Msg { shape: shape.clone(), val: Val::Str("q".repeat(payload)) },
+            Shape::Seq(e) if **e == Shape::U8 => Msg {
+                shape: shape.clone(),
+                val: Val::Seq((0..payload).map(|_| Val::Uint(1 + rng.below(127) as u128)).collect()),
+            },
+            _ => return None,
+        };
+        let plain = m.ref_encode();
+        if plain.len() == plain_len && !plain.contains(&0) {
+            let f = cobs_frame_canonical(&plain);
+            if f.len() == 255 * k + 1 && f.len() <= max_frame {
+                return Some((f, m.val));
+            }
+        }
+    }
+    None
+}
+
 fn damage_nonzero(rng: &mut Rng, frame: &mut [u8]) {
     if frame.len() < 2 {
         return;
@@ -1050,7 +1087,13 @@ fn gen_acc_trace(rng: &mut Rng, o: &GenOpts, sweep_len: Option<usize>) -> AccTra
         let seg = match roll {
             0..=3 => {
                 let exact = rng.chance(1, 4) && fit == n;
-                let f = if exact { exact_frame(rng, &shape, n) } else { None };
+                let f = if fit >= 256 && rng.chance(1, 5) {
+                    canonical_full_block_frame(rng, &shape, fit)
+                } else if exact {
+                    exact_frame(rng, &shape, n)
+                } else {
+                    None
+                };
                 match f.or_else(|| valid_frame(rng, &cfg, &shape, fit)) {
                     Some((b, v)) => mk(SegKind::Valid, b, Some(Expect::Value(v))),
                     None => empty(),
